@@ -1893,6 +1893,8 @@ func sectionParked(rng *vh.Rng, corpus []parkedCase) {
 // ---------------------------------------------------------------------------------------------
 // life cycle: a pipe re-created under the name of a deleted one; a pipe whose sources are another pipe's partition
 
+var createdAtCount int64 // churn: events stored in the source when the pipe was last deleted (= not younger than the next creation)
+
 type lifecycleCase struct {
 	Variant string `json:"variant"`        // recreate-parked | recreate-free | recreate-after-removal | chain-named | chain-all | client-writes-pipe-partition
 	Name    string `json:"name,omitempty"` // pipe name of the recreate variants (default pr); names the file-name escaping has to treat
@@ -1982,6 +1984,100 @@ func runLifecycle(c lifecycleCase, sec *vh.Section) {
 				Spec: fmt.Sprintf("%v — the first %d without waiting for a later write", want, n0+3), ImplEqModel: true, Finding: "F79",
 				What: "a clean stop while the pipe is behind its source (a notified batch not yet copied): after the restart nothing starts a worker; the events are copied only when a later write to that partition arrives — and a first batch whose descriptor was never saved is never copied"})
 		}
+	case "churn":
+		// rounds of delete + immediate re-create under one name while a writer keeps the source busy (workers are mid-write
+		// or waiting at every deletion); every other round the clean-up is held for a moment. Watchdog: nothing may hang or
+		// panic; a re-created pipe must know nothing about the source; after an acknowledged deletion whose clean-up has
+		// run, the positions file must be gone and stay gone.
+		name := "pc"
+		stopW := make(chan struct{})
+		var wwg sync.WaitGroup
+		wwg.Add(1)
+		go func() {
+			defer wwg.Done()
+			for i := 0; ; i++ {
+				select {
+				case <-stopW:
+					return
+				default:
+				}
+				r.write(0, mkEvs("w", i*4, 4), []string{"direct", "rpc"}[i%2])
+				time.Sleep(3 * time.Millisecond)
+			}
+		}()
+		fileName := pipe.VerifC07PipeFileName(srv.Cfg.PipesConfig.Dir, name)
+		var reached int32
+		hold := int32(0)
+		verifhook.Set("pipe.delete.beforeRemove", func() {
+			if atomic.LoadInt32(&hold) == 1 {
+				time.Sleep(30 * time.Millisecond)
+			}
+			atomic.StoreInt32(&reached, 1)
+		})
+		defer verifhook.Set("pipe.delete.beforeRemove", nil)
+		inherit, inheritEarly, fileBack := 0, 0, 0
+		watchdog := func(what string, f func()) bool {
+			p := ""
+			ok := vh.WithTimeout(20*time.Second, func() { p = vh.Recover(f) })
+			if !ok || p != "" {
+				res.SpecFail(vh.SpecFailure{Section: "lifecycle", Kind: map[bool]string{true: "panic", false: "hang"}[p != ""], Input: c, Impl: what + ": " + p, Spec: "returns", What: "deleting and re-creating a pipe under load hangs or panics"})
+				return false
+			}
+			return true
+		}
+		rounds := 30
+		for i := 0; i < rounds; i++ {
+			if !watchdog("CreatePipe", func() { srv.Pipes.CreatePipe(pipe.Pipe{Name: name, TagsCond: "grp=g1"}) }) {
+				break
+			}
+			if i > 0 {
+				if dl := descLine(srv, name, tl); dl != "none" && !strings.HasPrefix(dl, "-1") {
+					// a notification may already have created a descriptor (the writer never stops): inheritance shows as a
+					// position before the number of events stored at the re-creation
+					f := strings.Fields(dl)
+					if pos, _ := strconv.Atoi(f[0]); pos < int(atomic.LoadInt64(&createdAtCount)) {
+						inherit++
+						if atomic.LoadInt32(&reached) == 0 {
+							inheritEarly++
+						}
+					}
+				}
+			}
+			time.Sleep(time.Duration(5+i%3*20) * time.Millisecond)
+			atomic.StoreInt32(&hold, int32(i%2))
+			atomic.StoreInt32(&reached, 0)
+			if !watchdog("DeletePipe", func() { srv.Pipes.DeletePipe(name) }) {
+				break
+			}
+			r.mu.Lock()
+			atomic.StoreInt64(&createdAtCount, int64(len(r.written[0])))
+			r.mu.Unlock()
+			if i%5 == 4 {
+				// let the clean-up and any finishing worker run, then the file must be gone for good
+				time.Sleep(250 * time.Millisecond)
+				if _, err := os.Stat(fileName); err == nil {
+					fileBack++
+				}
+			}
+		}
+		close(stopW)
+		wwg.Wait()
+		res.Dist(sec, fmt.Sprintf("churn: inherited=%d (before the clean-up reached the removal: %d) file-back=%d", inherit, inheritEarly, fileBack))
+		if inherit > 0 || fileBack > 0 {
+			finding := ""
+			if fileBack == 0 && inherit == inheritEarly {
+				finding = "F74" // every inheritance happened before the clean-up goroutine had reached the removal
+			}
+			if fileBack > 0 {
+				// the file re-appeared after the clean-up: a worker that finished its write after the deletion saved its state —
+				// the second way into F74's class (saveState has no `deleted` guard)
+				finding = "F74"
+			}
+			res.SpecFail(vh.SpecFailure{Section: "lifecycle", Kind: "recreated-pipe-inherits-positions", Input: c,
+				Impl: fmt.Sprintf("%d of %d re-created pipes started with a position older than their creation (%d of them before the clean-up reached the removal); positions file present %d times 250 ms after an acknowledged deletion", inherit, rounds-1, inheritEarly, fileBack),
+				Spec: "none", Finding: finding,
+				What: "delete + immediate re-create under one name while workers are busy: the new pipe inherits the deleted pipe's positions, or the deleted pipe's positions file comes back"})
+		}
 	case "recreate-parked", "recreate-free", "recreate-after-removal":
 		name := "pr"
 		if c.Name != "" {
@@ -2008,16 +2104,48 @@ func runLifecycle(c lifecycleCase, sec *vh.Section) {
 			verifhook.Set("pipe.delete.beforeRemove", func() { atomic.StoreInt32(&cleanupReached, 1) })
 			defer verifhook.Set("pipe.delete.beforeRemove", nil)
 		}
-		if err := srv.Pipes.DeletePipe(name); err != nil {
-			res.Note("lifecycle: %v", err)
-			return
+		delDone := make(chan error, 1)
+		go func() { delDone <- srv.Pipes.DeletePipe(name) }()
+		acked := false
+		waitAck := func(d time.Duration) {
+			if acked {
+				return
+			}
+			select {
+			case err := <-delDone:
+				acked = true
+				if err != nil {
+					res.Note("lifecycle: DeletePipe: %v", err)
+				}
+			case <-time.After(d):
+			}
+		}
+		if c.Variant != "recreate-parked" {
+			waitAck(10 * time.Second)
+			if !acked {
+				res.SpecFail(vh.SpecFailure{Section: "lifecycle", Kind: "hang", Input: c, Impl: "DeletePipe did not return within 10 s", Spec: "returns", What: "DeletePipe hangs"})
+				return
+			}
 		}
 		switch c.Variant {
 		case "recreate-parked":
 			select {
 			case <-arrived:
 			case <-time.After(5 * time.Second):
-				res.Note("lifecycle: the delete goroutine did not reach pipe.delete.beforeRemove")
+				res.Note("lifecycle: the clean-up did not reach pipe.delete.beforeRemove")
+			}
+			// is the deletion acknowledged while its clean-up is held? (asynchronous clean-up: yes — the window of F74; a
+			// clean-up that runs before the acknowledgement: no — then there is no such window: release it and go on)
+			waitAck(300 * time.Millisecond)
+			if !acked {
+				res.Dist(sec, "clean-up runs before DeletePipe acknowledges: no window")
+				close(release)
+				release = nil
+				waitAck(10 * time.Second)
+				if !acked {
+					res.SpecFail(vh.SpecFailure{Section: "lifecycle", Kind: "hang", Input: c, Impl: "DeletePipe did not return within 10 s after its clean-up was released", Spec: "returns", What: "DeletePipe hangs"})
+					return
+				}
 			}
 			// written while no pipe exists
 			r.write(0, mkEvs("e", 3, 2), "direct")
@@ -2034,7 +2162,7 @@ func runLifecycle(c lifecycleCase, sec *vh.Section) {
 			return
 		}
 		inherited := descLine(srv, name, tl) // what the new pipe knows about the source before any notification
-		if c.Variant == "recreate-parked" {
+		if c.Variant == "recreate-parked" && release != nil {
 			close(release)
 			time.Sleep(100 * time.Millisecond)
 		}
@@ -2123,7 +2251,7 @@ func sectionLifecycle(corpus []lifecycleCase) {
 		"(a) a pipe deleted and created again under the same name: with the deleted pipe's clean-up goroutine parked before it removes the positions file (hook pipe.delete.beforeRemove), free-running right after DeletePipe returned, and after the clean-up has run; events written while no pipe existed must never be copied and the new pipe must know nothing about the source before its first notification; (b) a pipe whose source condition names another pipe's partition, or is empty: what the first pipe writes there vs what a client writes there; runs one case at a time (process-global hook); non-trivial = every case")
 	seen := map[string]bool{}
 	cs := []lifecycleCase{}
-	all := append(corpus, lifecycleCase{Variant: "stop-behind-first-batch"}, lifecycleCase{Variant: "stop-behind-later-batch"}, lifecycleCase{Variant: "recreate-parked"}, lifecycleCase{Variant: "recreate-free"}, lifecycleCase{Variant: "recreate-after-removal"},
+	all := append(corpus, lifecycleCase{Variant: "churn"}, lifecycleCase{Variant: "stop-behind-first-batch"}, lifecycleCase{Variant: "stop-behind-later-batch"}, lifecycleCase{Variant: "recreate-parked"}, lifecycleCase{Variant: "recreate-free"}, lifecycleCase{Variant: "recreate-after-removal"},
 		lifecycleCase{Variant: "chain-named"}, lifecycleCase{Variant: "chain-all"}, lifecycleCase{Variant: "client-writes-pipe-partition"})
 	// (names whose tag line needs quoting — blanks, non-ASCII — are C08's business: the pipe's partition could not be queried)
 	for _, n := range []string{"p_r", "p:r", "p/r", "p.dat", "p-r"} {
@@ -2139,13 +2267,13 @@ func sectionLifecycle(corpus []lifecycleCase) {
 	// delete no pipe and run beside them
 	var wg sync.WaitGroup
 	for _, c := range cs {
-		if !strings.HasPrefix(c.Variant, "recreate") {
+		if !strings.HasPrefix(c.Variant, "recreate") && c.Variant != "churn" {
 			wg.Add(1)
 			go func(c lifecycleCase) { defer wg.Done(); runLifecycle(c, sec) }(c)
 		}
 	}
 	for _, c := range cs {
-		if strings.HasPrefix(c.Variant, "recreate") {
+		if strings.HasPrefix(c.Variant, "recreate") || c.Variant == "churn" {
 			runLifecycle(c, sec)
 		}
 	}
